@@ -2,7 +2,7 @@
 in-process, prints their instances as Coq `obj` terms (coq/theories/Pdu.v), prints spec
 messages (coq/theories/PduSpec.v) and has an independent spec-side PDU encoder whose output is
 cross-checked against `spec_pdu` inside Coq (chk_dec)."""
-from lib.coqrun import z, zlist, boolean, string, lst
+from lib.coqrun import string, lst
 from lib.pyx import pyexn
 
 IMPORTS = ("From PM.theories Require Import Base Struct PduCls PduSpec Pdu CorrPdu.\n"
@@ -54,15 +54,51 @@ def ns():
 
 
 # ------------------------------------------------------------------ Coq term printing
+# Strict printers: a value of a type the model does not have (None, float, str where an int is
+# expected, ...) raises Undumpable, which `res` turns into an `Unexpected` observation.
+
+class Undumpable(Exception):
+    pass
+
+
+def z(n):
+    if isinstance(n, bool):
+        n = int(n)
+    if not isinstance(n, int):
+        raise Undumpable("expected an int, got %r" % (n,))
+    return "(%d)" % n if n < 0 else "%d" % n
+
+
+def zlist(l):
+    if not isinstance(l, (list, tuple)):
+        raise Undumpable("expected a list, got %r" % (l,))
+    return "[" + "; ".join(z(x) for x in l) + "]"
+
+
+def boolean(b):
+    if not isinstance(b, (bool, int)):
+        raise Undumpable("expected a bool, got %r" % (b,))
+    return "true" if b else "false"
+
 
 def nbytes(b):
     if isinstance(b, str):
         b = b.encode()
+    if not isinstance(b, (bytes, bytearray)):
+        raise Undumpable("expected bytes, got %r" % (b,))
     return "[" + "; ".join(str(x) for x in bytes(b)) + "]%N"
 
 
 def bits(l):
+    if not isinstance(l, (list, tuple)):
+        raise Undumpable("expected a list of bits, got %r" % (l,))
     return "[" + "; ".join("true" if x else "false" for x in l) + "]"
+
+
+def what(text):
+    """printable-ASCII Coq string for an Unexpected observation"""
+    t = "".join(ch if 32 <= ord(ch) < 127 else "?" for ch in str(text))[:160]
+    return string(t)
 
 
 def opt(v):
@@ -80,7 +116,7 @@ def dmsg(m):
         return "(DTuple %s)" % zlist(m)
     if isinstance(m, int):
         return "(DInt %s)" % z(m)
-    raise ValueError("diagnostic message of unmodelled type %r" % (m,))
+    raise Undumpable("diagnostic message of unmodelled type %r" % (m,))
 
 
 def frec(r):
@@ -143,16 +179,43 @@ def obj_term(o):
         return "(OExc %s %s %s)" % (z(o.original_code), z(o.function_code), z(o.exception_code))
     if n == "IllegalFunctionRequest":
         return "(OIllegal %s)" % z(o.function_code)
-    raise ValueError("class %s is not modelled" % n)
+    raise Undumpable("instance of class %s is not a modelled message" % n)
+
+
+class UnexpectedObs(Exception):
+    """marker returned by `res` as its third component when the outcome could not be dumped"""
+
+
+def unexpected(ty, text):
+    return "(@Unexpected (%s) %s)" % (ty, what(text))
 
 
 def res(thunk, printer, ty):
-    """run thunk; Coq term of type `res ty` for its value or its exception class"""
+    """Run thunk on the implementation.  Returns (Coq term of type `seen ty`, value, exception):
+       a value or an exception class is `Seen (Ok ..)` / `Seen (Raise ..)`; a value whose fields cannot
+       be dumped (wrong class for its attributes, missing attribute, non-message, wrong field type) is
+       `Unexpected "..."` with an UnexpectedObs marker as the exception.  Never raises."""
     try:
         v = thunk()
     except Exception as e:  # noqa: BLE001 — the exception class is the observation
-        return "(@Raise (%s) %s)" % (ty, pyexn(e)), None, e
-    return "(@Ok (%s) %s)" % (ty, printer(v)), v, None
+        try:
+            return "(Seen (@Raise (%s) %s))" % (ty, pyexn(e)), None, e
+        except Exception as e2:  # noqa: BLE001
+            return unexpected(ty, "exception could not be classified: %r" % (e2,)), None, UnexpectedObs(str(e2))
+    try:
+        return "(Seen (@Ok (%s) %s))" % (ty, printer(v)), v, None
+    except Exception as e:  # noqa: BLE001 — undumpable result = Unexpected observation
+        cn = type(v).__name__
+        return unexpected(ty, "%s: %s: %s" % (cn, type(e).__name__, e)), v, UnexpectedObs(str(e))
+
+
+def safe_obj_term(build_thunk):
+    """(term, instance, error text): build an input object and print it; never raises"""
+    try:
+        o = build_thunk()
+        return obj_term(o), o, None
+    except Exception as e:  # noqa: BLE001
+        return None, None, "%s: %s" % (type(e).__name__, e)
 
 
 def pdu_of(o):
